@@ -75,8 +75,8 @@ Qed.
     reverse by next_key. *)
 Definition refute_src : bytes := [7; 7].
 Definition refute_ops : list op :=
-  [ OPayCreate {| p_source := refute_src; p_ext := []; p_target := []; p_amount := 1%Z |};
-    OPayCreate {| p_source := refute_src; p_ext := [120]; p_target := []; p_amount := 1%Z |} ].
+  [ OPayCreate {| p_source := refute_src; p_src_up := false; p_ext := []; p_target := []; p_tgt_up := false; p_amount := 1%Z |};
+    OPayCreate {| p_source := refute_src; p_src_up := false; p_ext := [120]; p_target := []; p_tgt_up := false; p_amount := 1%Z |} ].
 
 Lemma sdk_paging_refuted :
   exists ops src limit,
